@@ -237,31 +237,6 @@ func (e *Engine) verifyFuncMode(fn *ssa.Function, cfg SolverCfg, mode string) *F
 			secs += times[c]
 		}
 	}
-	// second incremental pass: a query that the first pass left undecided (machine load, a cancelled command)
-	// is often easy in the incremental context (lemmas learned from the earlier queries) and hard as a one-shot
-	// query; pose the whole sequence once more with a longer per-query cap before falling back to one-shot queries
-	if len(checked) > 0 && !vc.ringMode && os.Getenv("GOVC_NOINC") == "" {
-		bad := 0
-		for i := range checked {
-			if i >= len(rs) || rs[i] != "unsat" {
-				bad++
-			}
-		}
-		if bad > 0 && bad <= 12 {
-			t2 := 6 * incT
-			out2, secs2 := runSolver(solvers[0], file, t2, time.Duration(incT*len(checked)+t2*bad+20000)*time.Millisecond)
-			rs2 := parseResults(out2)
-			for len(rs) < len(checked) {
-				rs = append(rs, "unknown")
-			}
-			for i := range checked {
-				if rs[i] != "unsat" && i < len(rs2) && rs2[i] == "unsat" {
-					rs[i] = "unsat"
-				}
-			}
-			secs += secs2
-		}
-	}
 	ci := 0
 	per := 0.0
 	if len(checked) > 0 {
@@ -306,6 +281,41 @@ func (e *Engine) verifyFuncMode(fn *ssa.Function, cfg SolverCfg, mode string) *F
 			}(pd)
 		}
 		wg.Wait()
+	}
+	// second incremental pass (rescue): a query that neither the first pass nor the one-shot race decided (machine
+	// load, a cancelled command) is often easy in the incremental context (lemmas learned from the earlier queries)
+	// and hard as a one-shot query; pose the whole sequence once more with a longer per-query cap
+	if len(checked) > 0 && !vc.ringMode && os.Getenv("GOVC_NOINC") == "" {
+		var undec []int // indices into checked
+		pos := map[*Obligation]int{}
+		for i, ob := range checked {
+			pos[ob] = i
+		}
+		byOb := map[*Obligation]*ObResult{}
+		for _, r := range res.Obs {
+			byOb[r.Ob] = r
+		}
+		for _, ob := range checked {
+			if r := byOb[ob]; r != nil && r.Status != "unsat" && r.Status != "sat" && r.Status != "folded" {
+				undec = append(undec, pos[ob])
+			}
+		}
+		if len(undec) > 0 && len(undec) <= 8 {
+			t2 := 4 * incT
+			out2, secs2 := runSolver(solvers[0], file, t2, time.Duration(incT*len(checked)+t2*len(undec)+20000)*time.Millisecond)
+			rs2 := parseResults(out2)
+			fixed := 0
+			for _, i := range undec {
+				if i < len(rs2) && rs2[i] == "unsat" {
+					r := byOb[checked[i]]
+					r.Status, r.Solver, r.Seconds = "unsat", "z3-new", secs2/float64(len(checked))
+					fixed++
+				}
+			}
+			if os.Getenv("GOVC_TRACE") != "" {
+				fmt.Fprintf(os.Stderr, "second pass %s: undecided=%d of %d, %.1fs, rescued %d\n", vc.fn.Name(), len(undec), len(checked), secs2, fixed)
+			}
+		}
 	}
 	// vacuity: preconditions satisfiable
 	res.PreSat = e.checkPreSat(vc, cfg, base)
